@@ -49,7 +49,7 @@ MtDecide ==
             [] OTHER -> /\ MtCanStart(m, f, i, o, Bug)
                         /\ (Len(m.thr) < MtThreads \/ Cached(m) # {})
                         /\ LET slot == IF Cached(m) # {} THEN CHOOSE k \in Cached(m) : \A j \in Cached(m) : k <= j ELSE 0
-                           IN m' = MtStartThread(m, f, i, o, slot)
+                           IN m' = MtStartThread(m, f, i, o, slot, Bug)
                         /\ pend' = <<>>
     /\ UNCHANGED <<d, nunits, lastret, mblocks>>
 MtSetStop == /\ \E new \in Limits : LET r == MtSet(m, new, Bug) IN m' = [r[2] EXCEPT !.mode = IF @ = "blocked" THEN "none" ELSE @]
